@@ -57,12 +57,14 @@ def plan_for(pid, tier):
     common = dict(tags=("verif",), life_cfg="LifeQ.cfg" if q else "Life.cfg", walks=250 if q else 6000,
                   life_timeout=120 if q else 1500)
     P = {
-        "C01": [("rich", 10 if q else 120, 5), ("lean", 1 if q else 6, 2)],
-        "C02": [("stored", 10 if q else 120, 5), ("lean", 1 if q else 4, 2)],
-        "C04": [("rich", 8 if q else 80, 6), ("stored", 3 if q else 40, 5), ("lean", 1 if q else 4, 3)],
-        "C05": [("rich", 12 if q else 150, 9), ("stored", 4 if q else 40, 8), ("lean", 1 if q else 4, 4)],
-        "C06": [("rich", 14 if q else 180, 10), ("lean", 1 if q else 6, 5)],
+        "C01": [("rich", 16 if q else 150, 5), ("mergey", 6 if q else 40, 4), ("lean", 2 if q else 8, 2)],
+        "C02": [("stored", 16 if q else 150, 5), ("mergey", 6 if q else 40, 4), ("lean", 1 if q else 4, 2)],
+        "C04": [("rich", 12 if q else 100, 6), ("stored", 6 if q else 50, 5), ("mergey", 8 if q else 50, 6), ("lean", 1 if q else 4, 3)],
+        "C05": [("rich", 10 if q else 120, 9), ("stored", 6 if q else 50, 8), ("mergey", 20 if q else 200, 9), ("leanmerge", 1 if q else 5, 0)],
+        "C06": [("rich", 10 if q else 120, 10), ("mergey", 30 if q else 300, 10), ("leanmerge", 1 if q else 8, 0)],
     }
+    common["walks"] = 500 if q else 8000
+    common["walk_bias"] = "merge" if pid in ("C05", "C06") else "build"
     common["profiles"] = P[pid]
     common["attr"] = {pid}
     return common
@@ -76,7 +78,7 @@ ASSUMPTIONS = [
 ]
 
 
-def sample_walks(out_path, n, seed, sc):
+def sample_walks(out_path, n, seed, sc, bias="build"):
     walks, cat = [], None
     for tag, payload in printed(out_path, ("WALK", "CATALOG")):
         if tag == "WALK":
@@ -88,9 +90,13 @@ def sample_walks(out_path, n, seed, sc):
     rnd = random.Random(seed)
     total = len(walks)
     if len(walks) > n:
-        # prefer walks that end in an observing action (build / open), keep all lengths
-        pick = rnd.sample(range(total), n)
-        walks = [walks[i] for i in sorted(pick)]
+        # weighted sample without replacement: walks that exercise the property's actions more are preferred
+        def weight(w):
+            if bias == "merge":
+                return 1 + 4 * w.count('"mergeopen"') + 6 * w.count('"ins":[0,1]') + 6 * w.count('"ins":[1,0]') + 3 * w.count('"ins":[2') + 3 * w.count('"ins":[0,2')
+            return 1 + 2 * w.count('"build"') + w.count('"persistopen"')
+        keyed = sorted(range(total), key=lambda i: rnd.random() ** (1.0 / weight(walks[i])), reverse=True)[:n]
+        walks = [walks[i] for i in sorted(keyed)]
     with open(sc.path("walks.ndjson"), "w") as fh:
         fh.write("\n".join(walks) + "\n")
     with open(sc.path("cat.json"), "w") as fh:
@@ -133,6 +139,22 @@ def scenario_slice(trace, l):
                 lines = []
             lines.append(line)
     return lines
+
+
+def process_prefix(trace, l, ranges):
+    """lines of the harness process that produced 1-based line l, from its first line up to l."""
+    lo = 1
+    for a, b in ranges:
+        if a <= l <= b:
+            lo = a
+    out = []
+    with open(trace) as fh:
+        for i, line in enumerate(fh, 1):
+            if i > l:
+                break
+            if i >= lo:
+                out.append(line)
+    return out
 
 
 def trace_stats(trace):
@@ -191,7 +213,7 @@ def run_life_check(pid, tier, seed, replay=None):
         errs = tlc_errors(outp)
         if errs:
             raise Inconclusive("Life model: " + "; ".join(errs[:3]))
-        total_walks, walks = sample_walks(outp, plan["walks"], seed, sc)
+        total_walks, walks = sample_walks(outp, plan["walks"], seed, sc, plan["walk_bias"])
         os.remove(outp)
         log("G: Life(%s) %d distinct states, %d edges; %d walks sampled" % (plan["life_cfg"], lst["distinct_states"], lst["states_generated"], len(walks)))
         # R
@@ -205,10 +227,16 @@ def run_life_check(pid, tier, seed, replay=None):
                                             "-out", tp, "-dir", sc.path("segs%d" % (k + 1))], sc).strip())
             traces.append(tp)
         allp = sc.path("all.ndjson")
+        ranges = []  # (first line, last line) of each harness process within the concatenated trace
+        nl = 0
         with open(allp, "wb") as out:
             for tp in traces:
+                n0 = nl
                 with open(tp, "rb") as fh:
-                    shutil.copyfileobj(fh, out)
+                    for line in fh:
+                        out.write(line)
+                        nl += 1
+                ranges.append((n0 + 1, nl))
         # V
         mism, accepted, rej, vst = validate(sc, allp, "trace.out")
         tst, samples = trace_stats(allp)
@@ -221,7 +249,7 @@ def run_life_check(pid, tier, seed, replay=None):
             log("KNOWN-FINDING: property=%s %s (%s; %d occurrences)" % (kf[k][0]["property"], kf[k][0]["what"], k, kf[k][1]))
         for n in sorted(notes):
             log("NOTE: mismatch attributed to %s, not to this check: %s x%d" % (n[0], n[1], notes[n]))
-        confirmed = confirm(pid, zx, sc, allp, viol, known, plan, seed)
+        confirmed = confirm(pid, zx, sc, allp, viol, known, plan, seed, ranges)
         cov = {"states": lst["distinct_states"] + vst["distinct_states"], "transitions": lst["states_generated"] + vst["states_generated"],
                "traces_validated_against_impl": tst["scenarios"],
                "samples": [json.loads(w) for w in walks[:2]] + samples,
@@ -262,7 +290,7 @@ def classify(pid, plan, mism, known):
     return viol, kf, notes
 
 
-def confirm(pid, zx, sc, trace, viol, known, plan, seed, limit=3):
+def confirm(pid, zx, sc, trace, viol, known, plan, seed, ranges, limit=3):
     """Re-runs the scenario of each violation candidate from its recorded inputs; reports only reproduced ones."""
     confirmed, seen = [], set()
     for v in viol:
@@ -273,10 +301,20 @@ def confirm(pid, zx, sc, trace, viol, known, plan, seed, limit=3):
         sl = sc.path("slice.ndjson")
         with open(sl, "w") as fh:
             fh.writelines(lines)
-        again = rerun_slice(zx, sc, sl)
-        same = [m for m in again[0] for it in m["bad"] if key_of(m["prov"], it) == v["key"]]
-        if v["prov"] == "rejected":
-            same = [1] if again[2] is not None else []
+        def reproduced(again):
+            if v["prov"] == "rejected":
+                return again[2] is not None
+            return any(key_of(m["prov"], it) == v["key"] for m in again[0] for it in m["bad"])
+        same = reproduced(rerun_slice(zx, sc, sl))
+        if not same:
+            # the scenario alone does not show it: the behaviour may depend on what the process did before
+            # (pooled builders, caches) - re-run the whole history of that harness process up to the line
+            lines = process_prefix(trace, v["l"], ranges)
+            with open(sl, "w") as fh:
+                fh.writelines(lines)
+            same = reproduced(rerun_slice(zx, sc, sl))
+            if same:
+                log("note: %s needs the preceding history of the process to manifest (%d events replayed)" % (v["key"], len(lines)))
         if not same:
             log("UNREPRODUCED: %s at line %d did not reproduce from its inputs (treated as inconclusive)" % (v["key"], v["l"]))
             raise Inconclusive("violation candidate did not reproduce: %s" % v["key"])
